@@ -373,6 +373,7 @@ nothing else. -/
 inductive Expect where
   | any
   | notErr                              -- anything but a runtime error
+  | notLayer                            -- anything but a layer object ("an X object IF the type field says X")
   | rterr
   | num (alts : List Nat)
   | flag (b : Bool)
@@ -467,8 +468,12 @@ def readFrom (st : SState) : List PP → Cur → Expect
       if st.isDirty d then .any
       else
         match innerOf st.fr l s with
-        | some (l', s') => if l' = want then readFrom st ps (arrive st.fr l' s' (d + 1) ends) else .any
-        | none => .any        -- the name disagrees with the type field: unconstrained
+        | some (l', s') =>
+          if l' = want then readFrom st ps (arrive st.fr l' s' (d + 1) ends)
+          -- the type field selects another layer: the documents promise "an X object if the type field
+          -- is …", so whatever comes back, it is not a layer object (what it is instead is not said)
+          else if ps.isEmpty then .notLayer else .any
+        | none => .any        -- no known layer below: unconstrained
     | none =>
       if !ps.isEmpty then .any
       else if p = .payload then (if st.isDirty d then .any else payloadExpect st l s ends)
